@@ -148,10 +148,10 @@ async def do_action(a, who):
                     register(ctx, kid, kpass, [])
                 if cid in (w.case.get("raisers") or []):
                     raise TdErr(cid)             # the callback fails: the others still run, and this comes out
-            if cid % 7 == 3 and not pass_exc and cid % 3 != 2 and cid % 5 != 4:
+            if cid % 7 == 3 and not pass_exc and cid % 3 != 2 and cid % 5 != 4 and cid % 4 != 1:
                 # the callback comes with a resource published under two types: ONE callback, called once
                 ctx.add_resource(TdRes(), f"tdres{cid}", [TdA, TdB], teardown_callback=lambda: ran("noarg"))
-            elif cid % 7 == 5 and pass_exc and top and who != "driver" and cid % 3 != 2 and cid % 5 != 4:
+            elif cid % 4 == 1 and cid % 3 != 2 and pass_exc and top and who != "driver":
                 # the second half of a @context_teardown function -- ONE decorated function shared by every such
                 # registration of the run, as the components of one class share their start()
                 return ("ctxtd", ran)
